@@ -40,10 +40,10 @@ VARIABLES base,  \* the root below which programs are installed in this executio
           last   \* ghost: [op, k, a, res] of the call just performed
 vars == <<base, last>>
 
-Classes == {"ascii", "space", "utf8", "dot"}
+Classes == {"ascii", "space", "utf8", "dot", "punct"}   \* punct: a byte that is special elsewhere (backslash, quotes, colon, ...) but ordinary in a POSIX name
 (* a one-byte name cannot contain a multi-byte character, and "." is not a name *)
 MinLen(cls) == IF cls \in {"utf8", "dot"} THEN 2 ELSE 1
-ClassSeq == <<"ascii", "space", "utf8", "dot">>
+ClassSeq == <<"ascii", "space", "utf8", "dot", "punct">>
 
 RECURSIVE SumLen(_)
 SumLen(p) == IF p = <<>> THEN 0 ELSE p[1].len + SumLen(Tail(p))
@@ -51,7 +51,7 @@ PathLen(p) == SumLen(p) + Len(p)                    \* every component is preced
 
 ----------------------------------------------------------------------------
 (* Configurations: the components below the root                            *)
-ClsAt(pat, i) == IF pat = "mixed" THEN ClassSeq[((i - 1) % 4) + 1] ELSE pat
+ClsAt(pat, i) == IF pat = "mixed" THEN ClassSeq[((i - 1) % 5) + 1] ELSE pat
 
 (* short paths: small, varying lengths *)
 ShortComps(d, pat) == [i \in 1..d |-> [len |-> MinLen(ClsAt(pat, i)) + ((i * 3) % 7), cls |-> ClsAt(pat, i)]]
